@@ -1,4 +1,5 @@
 pub mod c01;
+pub mod c18;
 pub mod compare;
 pub mod diff;
 pub mod expect;
@@ -48,6 +49,31 @@ pub fn dispatch(prop: &str, tier: &str) -> i32 {
             cfg.assumptions = vec!["R-SQL implements the documented semantics for exactly the generator's grammar".into(), "scalar function semantics beyond the small expression core are not covered (C05 n/a)".into()];
             let chk = c01::ModelCheck::new("C01", c01::Focus::General, allowed_dev("C01"));
             crate::finish(&cfg, &chk, serde_json::json!({}))
+        }
+        "C06" | "C07" | "C08" | "C09" => {
+            let mut cfg = crate::base_cfg(prop, tier);
+            let (focus, what) = match prop {
+                "C06" => (c01::Focus::Joins, "join-heavy queries (cross/inner/left/right/semi, IN/EXISTS forms, equality and inequality conditions, NULL and duplicate keys), hash joins on or off per run"),
+                "C07" => (c01::Focus::Aggregates, "GROUP BY / ROLLUP / CUBE / GROUPING(), DISTINCT, UNION and aggregates with DISTINCT and FILTER, rows split over 1-16 partitions"),
+                "C08" => (c01::Focus::Sorting, "ORDER BY over 1-3 keys with every direction / NULLS placement, LIMIT/OFFSET around batch and input sizes, small batch sizes so inputs span many sort blocks"),
+                _ => (c01::Focus::Subqueries, "scalar / EXISTS / IN / ANY / ALL / lateral subqueries (correlated or not), CTEs referenced several times, derived tables"),
+            };
+            cfg.runs = if quick { 4000 } else { 300_000 };
+            cfg.rule = format!("one run = one world: random tables, knobs and scheduling policy, 8 generated SELECTs biased to {what}, compared with the R-SQL reference evaluator. Non-trivial = >=2 scheduling decisions with >1 runnable task and >=1 Pending poll; distinct = distinct (knobs, policy, event-trace digest).");
+            cfg.assumptions = vec!["R-SQL implements the documented semantics for exactly the generator's grammar".into()];
+            let p: &'static str = match prop { "C06" => "C06", "C07" => "C07", "C08" => "C08", _ => "C09" };
+            let mut chk = c01::ModelCheck::new(p, focus, allowed_dev(prop));
+            if prop == "C07" || prop == "C08" {
+                chk.max_rows = 120;
+            }
+            crate::finish(&cfg, &chk, serde_json::json!({}))
+        }
+        "C18" => {
+            let mut cfg = crate::base_cfg("C18", tier);
+            cfg.runs = if quick { 3000 } else { 200_000 };
+            cfg.rule = "one run = one world: for generated queries, a widened type palette (DECIMAL, DATE, TIMESTAMP, small/unsigned ints, REAL) and SELECT * of every table: DESCRIBE <stmt> must equal the announced output schema, and every produced array must carry the announced datatype. Non-trivial = >=2 scheduling decisions with choice and >=1 Pending poll.".into();
+            cfg.assumptions = vec!["no schedule or fault is in the property's statement; it is monitored on simulated runs (see DESIGN 3 C18)".into()];
+            crate::finish(&cfg, &c18::SchemaCheck, serde_json::json!({}))
         }
         "C02" | "C03" | "C04" => {
             let mut cfg = crate::base_cfg(prop, tier);
